@@ -119,6 +119,7 @@ for X in ('a', 'g'):
         f'{L}.reduce_{X}_factor', props=['C04', 'C03', 'C13', 'C02'],
         params={'group': G},
         requires=[('member_of_group', 'in_group(group)'), ('tdc_present', 'self.tdc is not None'),
+                  ('communicator_invariant', 'tdc_inv(self.tdc) and isinstance(self.tdc._bucket_cap_mb, (int, float))'),
                   ('factor_square', f'implies(self._{X}_factor is not None, is_square(awaited(self._{X}_factor).shape))'),
                   ('known_method', 'self.allreduce_method is AllreduceMethod.ALLREDUCE or self.allreduce_method is AllreduceMethod.ALLREDUCE_BUCKETED')],
         raises=[('RuntimeError', f'self._{X}_factor is None')],
@@ -126,10 +127,11 @@ for X in ('a', 'g'):
             ('alone_unchanged', f'implies(group_size(group) == 1, val(awaited(self._{X}_factor)) == old(val(awaited(self._{X}_factor))))'),
             ('world_mean', f'implies(group_size(group) != 1, val(awaited(self._{X}_factor)) == '
                            f'reduced(old(val(awaited(self._{X}_factor))), old(awaited(self._{X}_factor).shape), group, True, '
-                           'self.symmetric_factors and self.symmetry_aware))'),
+                           f'self.symmetric_factors and self.symmetry_aware, uninit(awaited(self._{X}_factor).sid)))'),
             ('same_shape_dtype', f'awaited(self._{X}_factor).shape == old(awaited(self._{X}_factor).shape) and '
                                  f'awaited(self._{X}_factor).dtype is old(awaited(self._{X}_factor).dtype)'),
             ('nothing_sent_alone', 'implies(group_size(group) == 1, trace() == old(trace()))'),
+            ('communicator_invariant', 'tdc_inv(self.tdc)'),
         ],
         modifies=[f'self._{X}_factor', '*.resolved', '*.val', 'self.tdc._allreduce_buckets', '*._tensors', '*._futures', '*._size',
                   '*._communicated', 'ghost:trace', 'ghost:next_sid'],
